@@ -27,6 +27,9 @@ def _queues_by_role(f: Func) -> Tuple[Optional[str], Optional[str]]:
             work = src(c.func.value)
         elif qc and qc[0] == "put":
             res = src(c.func.value)
+        elif isinstance(c.func, ast.Name) and c.func.id == "iter" and len(c.args) == 2 and isinstance(c.args[0], ast.Attribute) \
+                and c.args[0].attr == "get" and const_value(c.args[1], 0) is None:
+            work = src(c.args[0].value)                       # for item in iter(<queue>.get, None)
     return work, res
 
 
@@ -91,6 +94,12 @@ def r1_tags(prog, rep: Report, fw: Cls, fr: Cls):
                 defs = Flow(run_.node).defs_of(lp.test.left)
                 ok = bool(defs) and all(isinstance(d_.value, ast.Call) and work_get(d_.value) for d_ in defs) \
                     and isinstance(lp.body[-1], ast.Assign) and isinstance(lp.body[-1].value, ast.Call) and work_get(lp.body[-1].value)
+        if not ok and not loops:
+            # for item in iter(<work queue>.get, None): the loop ends exactly when the sentinel arrives (no break, no else)
+            fl = [n for n in walk_own(run_.node) if isinstance(n, ast.For) and isinstance(n.iter, ast.Call) and src(n.iter.func) == "iter"
+                  and len(n.iter.args) == 2 and isinstance(n.iter.args[0], ast.Attribute) and n.iter.args[0].attr == "get"
+                  and src(n.iter.args[0].value) == work and const_value(n.iter.args[1], 0) is None]
+            ok = len(fl) == 1 and not any(isinstance(x, (ast.Break, ast.Return)) for x in ast.walk(fl[0]))
         rep.check("C05.R1", run_, "loop", ok, "the worker loop ends only on the None sentinel",
                   "the worker loop does not end exactly on the None sentinel",
                   scenario="a worker stops early (work is never processed, the call hangs) or never stops (join hangs)")
@@ -204,9 +213,14 @@ def r2_accounting(prog, rep: Report, fm: Cls, mp: Func):
         if not un_ and good_sites and not bad_sites:
             ok = True
             apps = sorted(good_sites)
-    rep.check("C05.R2", mp, "collect", ok, f"{len(apps)} receive sites append (act[0], act[1][0])",
-              "a received result is not appended as (index, first element of the value list)",
-              scenario="results are collected without their index or with the wrong component: the final sort cannot restore the order")
+    if not ok and not apps:
+        # nothing is appended at all: the results are collected in another container (a dict by index, a pre-sized list):
+        # another scheme than the (index, value) pairs + final sort this rule and C05.R4 follow
+        rep.unrec("C05.R2", mp, "collect", "the received results are not collected by appending (index, value) pairs")
+    else:
+        rep.check("C05.R2", mp, "collect", ok, f"{len(apps)} receive sites append (act[0], act[1][0])",
+                  "a received result is not appended as (index, first element of the value list)",
+                  scenario="results are collected without their index or with the wrong component: the final sort cannot restore the order")
     puts = [c for c in calls_in(mp.node) if queue_call(c) and queue_call(c)[0] == "put" and c.args and isinstance(c.args[0], ast.Tuple)]
     send_ok = False
     for n in walk_own(mp.node):
@@ -247,6 +261,8 @@ def r3_owed(prog, rep: Report, fm: Cls, mp: Func):
                 rep.check("C05.R3", f, f"get:blocking", owed, f"blocking get under `while {src(lp.test) if lp is not None else '?'}`",
                           "a blocking get on the results queue is not guarded by `finished < sent`: it waits for a result nobody owes",
                           scenario="input shorter than expected / empty input: the call blocks forever in get()", line=c.lineno)
+            elif qc[1] == "blocking?":
+                rep.unrec("C05.R3", f, "get:blocking", f"`{src(c)}`: whether this get blocks is decided by a run-time flag", c.lineno)
             elif qc[1] == "nonblocking":
                 from .c02 import _in_empty_handler
                 h = _in_empty_handler(c)
@@ -334,6 +350,18 @@ def r4_sorted(prog, rep: Report, mp: Func):
                                          and const_value(key.body.slice) == 0)
                 elt_ok = src(v.elt) == src(g.target.elts[1])
                 ok = key_ok and elt_ok and (rev is None or const_value(rev) is False)
+    if not ok and len(rets) == 1 and not any(isinstance(n_, ast.Call) and (src(n_.func) == "sorted" or (isinstance(n_.func, ast.Attribute)
+                                                                                                  and n_.func.attr == "sort"))
+                                              for n_ in ast.walk(mp.node)):
+        # no sort at all and a single return: the order is restored some other way (values kept by index and read out
+        # position by position); whether that is right is not something this rule's shape can tell
+        v_ = rets[0].value
+        by_position = isinstance(v_, ast.ListComp) and len(v_.generators) == 1 and isinstance(v_.elt, ast.Subscript) \
+            and isinstance(v_.generators[0].iter, ast.Call) and src(v_.generators[0].iter.func) == "range" \
+            and src(v_.elt.slice) == src(v_.generators[0].target)
+        if by_position:
+            rep.unrec("C05.R4", mp, "sorted-by-index", f"`{src(v_)}` reads the results out by position instead of sorting (index, value) pairs")
+            return
     rep.check("C05.R4", mp, "sorted-by-index", ok, "returns the values sorted by their input index", why,
               scenario="results arrive out of order from several workers: without the sort by index the output order is the arrival order")
 
@@ -395,7 +423,12 @@ def r5_shutdown(prog, rep: Report, fm: Cls, mp: Func):
               "sentinels and joining them",
               scenario="mul_p_map(f, []) leaves its workers alive on the shared class-level queues: they take items and sentinels of "
                        "the next call (results of the old f, or a hang in join())", line=early[0].lineno if early else None)
-    rep.check("C05.R5", mp, "join-after-drain", join_i is not None and drain_i is not None and join_i > drain_i,
+    if drain_i is None and any(isinstance(c, ast.Call) and queue_call(c) and queue_call(c)[0] == "get" and queue_call(c)[1] == "blocking?"
+                               for c in ast.walk(mp.node)):
+        rep.unrec("C05.R5", mp, "join-after-drain", "the results are taken by a get whose blocking mode is a run-time flag: the drain loop "
+                  "cannot be placed relative to the joins")
+    else:
+      rep.check("C05.R5", mp, "join-after-drain", join_i is not None and drain_i is not None and join_i > drain_i,
               "workers are joined only after every owed result was collected",
               "the workers are joined before the remaining results were taken from the results queue: a worker that still has "
               "to write a result larger than the pipe buffer never exits, join() never returns and nobody reads the pipe",
